@@ -379,3 +379,6 @@ M('mq-recv-ignores-state', ['C02'], MQ, "self.receiver.recv(self.recv_state if s
 M('send_push-no-uid', ['C04'], Z, "                msg0['uid'] = self.unique_id\n", "", ['C04.R6'])
 M('clients-keyed-by-cid-only', ['C04'], Z, "                full_id   = client_id + env.get('uid', '')", "                full_id   = client_id", ['C04.R6'])
 M('cli-probe-no-restore-on-exception', ['C12'], CLI, "    except Exception:\n        return False  # safest thing to do here\n    finally:\n        Filter.normalize_config = old_Filter_normalize_config\n", "    except Exception:\n        return False  # safest thing to do here\n\n    Filter.normalize_config = old_Filter_normalize_config\n", ['C12.R4'])
+
+# ------------------------------------------------------------------------- shapes of the independently seeded changes
+M('seed-C13-prune-rebase-off-by-one', ['C13'], RL, "            if (read_idx := self.read_idx - idx) >= 0:", "            if (read_idx := self.read_idx - idx) > 0:", ['C13.R2'])
